@@ -256,6 +256,15 @@ class L3:
                     out.append((f'{n}: NUL at counter', b == 0))
         return out
 
+    def leak_conds(self, mem):
+        """every live heap object must be the buffer of some string (nothing leaked)"""
+        pointed = set()
+        for n in self.dynstrs:
+            p = self.str_ptr(mem, n)
+            if isinstance(p, Ptr) and p.obj is not None:
+                pointed.add(p.obj)
+        return [(f'heap object {h} still referenced (no leak)', z3.BoolVal(h in pointed)) for h in self.live_heap(mem)]
+
     def live_heap(self, mem):
         return [k for k, o in mem.objs.items() if o.kind == 'heap' and o.live]
 
